@@ -161,6 +161,9 @@ def run_check(modname: str, tier: str, seed: int, replay_path: str | None = None
     if col.machinery:
         print('MACHINERY FAILURE in replay worker:\n' + col.machinery[0], file=sys.stderr)
         return 2
+    if not tlc_runs and not col.evaluations:
+        print('MACHINERY FAILURE: nothing was evaluated', file=sys.stderr)
+        return 2
     for t in pm.required_tags(tier):
         if col.tags.get(t, 0) == 0:
             print(f'MACHINERY FAILURE: vacuous run, required tag {t!r} never occurred', file=sys.stderr)
@@ -224,9 +227,14 @@ def run_check(modname: str, tier: str, seed: int, replay_path: str | None = None
         'exhaustive': all(not r.get('simulate') and not r.get('cut_after_max_cases') for r in tlc_runs) if tlc_runs else False,
         'checker_cmd': f'./check {prop} --tier {tier}',
     }
-    coverage.update(extra_info if 'extra_info' in dir() else {})
     if distinct == 0:
         coverage.pop('states'); coverage.pop('transitions')
+    tv = extra_info.get('trace_validation') if 'extra_info' in dir() else None
+    if tv and distinct == 0:
+        # a trace specification visits one state per judged event (plus the initial one per shard)
+        coverage['states'] = tv.get('events', 0) + tv.get('shards', 1)
+        coverage['transitions'] = tv.get('events', 0)
+    coverage.update(extra_info if 'extra_info' in dir() else {})
     assumptions = [ASSUMPTIONS[k] for k in getattr(pm, 'ASSUME', ['small_scope', 'binary64', 'tlc', 'import'])]
     write_evidence(prop, tier, seed, coverage, time.time() - t0, len(violations), assumptions, level=getattr(pm, 'LEVEL', 'model_checking'))
     print(f'{prop} {tier}: TLC {distinct} distinct states / {states} generated; {col.evaluations} scenarios replayed, '
